@@ -1,4 +1,3 @@
 package main
 
-func (g *gen) emitSites()  {}
 func (g *gen) emitTables() {}
